@@ -3,7 +3,7 @@
    Model: Model/Patch.v (parser, hunks, Workspace::apply_patch with the first-seen undo list) over
    the file-system model Base/Fs.v.  `apply_patch true` is the code after fix 6739939, `apply_patch
    false` the code before it. *)
-From RipV Require Import Base.Prelude Base.Fs Model.Patch Proofs.FsProofs Proofs.PatchProofs Proofs.PatchAtomic Proofs.PatchText.
+From RipV Require Import Base.Prelude Base.Fs Model.Patch Proofs.FsProofs Proofs.PatchProofs Proofs.PatchAtomic Proofs.PatchText Proofs.PatchParse.
 
 (* ---- ATOMICITY (the code after fix 6739939).  For every well-formed workspace tree f (unique
    keys, every entry's ancestors are directories), every patch document (well-formed or not), every
@@ -172,6 +172,18 @@ Theorem c12_parse_paths_safe : forall (input : list N) (ops : list op),
   parse_patch input = Some ops -> Forall op_safe ops.
 Proof. exact parse_paths_safe. Qed.
 Print Assumptions c12_parse_paths_safe.
+
+(* ---- the format is complete and unambiguous: every sequence of operations whose payload lines are
+   clean (no LF, not ending in CR; paths already trimmed, relative, without `..`; every update has
+   at least one non-empty hunk) has a document (header, `+` lines / `@@` + `-`/`+` lines, footer),
+   and the parser returns exactly that sequence — with every line verbatim *)
+Theorem c12_parse_render_roundtrip : forall (ops : list sop),
+  Forall sop_ok ops -> parse_patch (render ops) = Some (map to_op ops).
+Proof. exact parse_render. Qed.
+Print Assumptions c12_parse_render_roundtrip.
+
+Example c12_parse_render_nonvacuous : Forall sop_ok demo_ops.
+Proof. exact demo_ok. Qed.
 
 (* ---- the rollback before fix 6739939 is not atomic: delete a; add a/b; fail  ==>  a is lost *)
 Theorem c12_atomic_unfixed_refuted :
